@@ -370,6 +370,15 @@ func c18BadCases() []*c18Case {
 		"router": asaV4 + "access-list a2 extended permit ip host 10.4.0.2 any4\naccess-group a2 in interface outside\n",
 		"router.raw": "access-list zz9 extended permit ip host 10.7.0.1 any4\n" +
 			"access-group zz9 in interface inside\naccess-group zz9 in interface outside\n"})
+	for name, binds := range map[string]string{
+		"doubly-bound-acl-in-out":  "access-group zz9 in interface inside\naccess-group zz9 out interface inside\n",
+		"doubly-bound-acl-out-in":  "access-group zz9 out interface inside\naccess-group zz9 in interface inside\n",
+		"doubly-bound-acl-new-new": "access-group zz9 out interface inside\naccess-group zz9 out interface outside\n",
+	} {
+		mk("ASA", name, "zz9", asaDev+"interface Ethernet0/2\n nameif outside\n", map[string]string{
+			"router":     asaV4 + "access-list a2 extended permit ip host 10.4.0.2 any4\naccess-group a2 in interface outside\n",
+			"router.raw": "access-list zz9 extended permit ip host 10.7.0.1 any4\n" + binds})
+	}
 	mk("ASA", "name-clash-group", "zz9", asaDev, map[string]string{
 		"router": "object-group network zz9\n network-object host 10.4.0.9\n" +
 			"access-list a1 extended permit ip object-group zz9 any4\naccess-group a1 in interface inside\n",
@@ -388,6 +397,8 @@ func c18BadCases() []*c18Case {
 		"router.raw": "ip access-list extended zz9\n permit ip host 10.7.0.1 any\n"})
 	mk("IOS", "doubly-bound-acl", "zz9", iosDev, map[string]string{"router": iosV4,
 		"router.raw": "ip access-list extended zz9\n permit ip host 10.7.0.1 any\ninterface Ethernet0\n ip access-group zz9 in\n ip access-group zz9 out\n"})
+	mk("IOS", "doubly-bound-acl-out-in", "zz9", iosDev, map[string]string{"router": iosV4,
+		"router.raw": "ip access-list extended zz9\n permit ip host 10.7.0.1 any\ninterface Ethernet0\n ip access-group zz9 out\n ip access-group zz9 in\n"})
 	mk("IOS", "unknown-acl-in-raw", "zz9", iosDev, map[string]string{"router": iosV4,
 		"router.raw": "interface Ethernet0\n ip access-group zz9 out\n"})
 	linV4 := "*filter\n:INPUT DROP\n:c1 -\n-A INPUT -s 10.4.0.1 -j c1\n-A c1 -j ACCEPT\nCOMMIT\n"
